@@ -118,7 +118,32 @@ def gen_vregion(rng, p, mode, kinds=('cube', 'half', 'slice')):
   k = rng.choice(kinds)
   if k == 'cube': return gen_cube(rng, p, mode)
   if k == 'half': return gen_half(rng, p, mode)
+  if k == 'inter': return gen_inter_around(rng, p, mode)
   return gen_slice(rng, p, mode)
+
+
+def gen_inter_around(rng, p, mode):
+  """an intersection of two simple regions with a common member z; z = p for inside / boundary modes."""
+  z = list(p) if mode in ('inside', 'boundary') else [x + dy(rng, -2, 2) for x in p]
+  sub = 'boundary' if mode == 'boundary' else 'inside'
+  return {'k': 'inter', 'a': gen_vregion(rng, z, sub), 'b': gen_vregion(rng, z, rng.choice(['inside', sub]))}
+
+
+def gen_wedge(rng, n):
+  """a narrow wedge of two half-spaces (normals nearly opposite) and a point above its apex: Dykstra's
+  alternating iterates crawl towards the apex and do not converge within the shipped maxiter, so the
+  implementation has to raise; returning the current iterate silently would be a non-member."""
+  i, j = rng.sample(range(n), 2)
+  eps = Fraction(1, rng.choice([32, 64]))
+  z = gen_point(rng, n, bits=1, span=2)
+  def half(sg):
+    nrm = [F(0)]*n; nrm[i] = F(sg); nrm[j] = eps
+    return {'k': 'half', 'nrm': L(nrm), 'o': fs(fdot(nrm, z)), 'sign': '-1'}
+  p = list(z); p[j] = z[j] + dy(rng, 1, 4); p[i] = z[i] + dy(rng, -1, 1)
+  r = {'k': 'inter', 'a': half(1), 'b': half(-1)}
+  if rng.random() < 0.5:
+    r = {'k': 'inter', 'a': r['b'], 'b': r['a']}
+  return r, p, z
 
 
 def gen_inter(rng, n, depth=0):
@@ -126,7 +151,7 @@ def gen_inter(rng, n, depth=0):
   z = gen_point(rng, n, bits=1, span=3)
   common = rng.random() < 0.85
   def part():
-    if depth == 0 and rng.random() < 0.12:
+    if depth == 0 and rng.random() < 0.2:
       return {'k': 'inter', 'a': gen_vregion(rng, z, 'inside' if common else 'random'), 'b': gen_vregion(rng, z, 'inside' if common else 'random')}
     return gen_vregion(rng, z, rng.choice(['inside', 'inside', 'boundary']) if common else 'random')
   r = {'k': 'inter', 'a': part(), 'b': part()}
@@ -137,7 +162,7 @@ def gen_inter(rng, n, depth=0):
   return r, p, z if common else None
 
 
-def gen_list(rng, tier, kinds=('cube', 'half', 'slice')):
+def gen_list(rng, tier, kinds=('cube', 'cube', 'half', 'half', 'slice', 'slice', 'inter')):
   """a List region, a matrix point of matching shape, per line modes."""
   axis = rng.choice([0, 1])
   r = rng.randint(1, 3 if tier == 'quick' else 4)
